@@ -31,6 +31,7 @@ type Program struct {
 	Overlay map[string][]byte
 	namedKeys []string
 	Rules     map[string]*DFA
+	fvTargets map[string][]*ssa.Function
 }
 
 var repoPkgs = []string{"./martian/core", "./martian/syntax", "./martian/util", "./cmd/mrjob", "./cmd/mrp"}
@@ -189,4 +190,70 @@ func isRepoFunc(fn *ssa.Function) bool {
 		return isRepoFunc(fn.Parent())
 	}
 	return pkg != nil && strings.HasPrefix(pkg.Path(), "github.com/martian-lang/martian")
+}
+
+
+// funcValueTargets: repository functions with the given signature that occur as values
+// (closures, method values, functions stored or passed).
+func (p *Program) funcValueTargets(sig *types.Signature) []*ssa.Function {
+	if p.fvTargets == nil {
+		p.fvTargets = map[string][]*ssa.Function{}
+		seen := map[*ssa.Function]bool{}
+		add := func(fn *ssa.Function) {
+			if fn == nil || seen[fn] || !isRepoFunc(fn) {
+				return
+			}
+			seen[fn] = true
+			k := sigKey(fn.Signature)
+			p.fvTargets[k] = append(p.fvTargets[k], fn)
+		}
+		for _, key := range p.sortedFuncKeys() {
+			fn := p.ByKey[key]
+			if !isRepoFunc(fn) {
+				continue
+			}
+			for _, b := range fn.Blocks {
+				for _, in := range b.Instrs {
+					if mc, ok := in.(*ssa.MakeClosure); ok {
+						add(mc.Fn.(*ssa.Function))
+						continue
+					}
+					var callee ssa.Value
+					if c, ok := in.(ssa.CallInstruction); ok {
+						callee = c.Common().Value
+					}
+					for _, op := range in.Operands(nil) {
+						if f2, ok := (*op).(*ssa.Function); ok && *op != callee {
+							add(f2)
+						}
+					}
+				}
+			}
+		}
+	}
+	return p.fvTargets[sigKey(sig)]
+}
+
+func sigKey(sig *types.Signature) string {
+	// parameter and result TYPES only (receiver-less view, as seen through a func value)
+	var b strings.Builder
+	b.WriteString("func(")
+	for i := 0; i < sig.Params().Len(); i++ {
+		if i > 0 {
+			b.WriteString(",")
+		}
+		b.WriteString(types.TypeString(types.Unalias(sig.Params().At(i).Type()), pkgQualifier))
+	}
+	if sig.Variadic() {
+		b.WriteString("...")
+	}
+	b.WriteString(")(")
+	for i := 0; i < sig.Results().Len(); i++ {
+		if i > 0 {
+			b.WriteString(",")
+		}
+		b.WriteString(types.TypeString(types.Unalias(sig.Results().At(i).Type()), pkgQualifier))
+	}
+	b.WriteString(")")
+	return b.String()
 }
